@@ -248,6 +248,7 @@ func (c *Ctx) cod8() {
 
 	if rl != nil {
 		a := c.acc("COD-8", rl, "value-returned-only-after-decodeValue=nil;absent-only-for-nil")
+		intact := c.acc("COD-8", rl, "decodeValue=nil⇒its-value-returned-without-error")
 		for _, p := range c.Paths("COD-8", rl) {
 			if p.End != pathx.KReturn {
 				continue
@@ -256,6 +257,17 @@ func (c *Ctx) cod8() {
 			res := p.Events[last].Results
 			il := p.Index(0, func(e *pathx.Event) bool { return persistenceOp(e) == "Load" })
 			id := p.Index(0, func(e *pathx.Event) bool { return isCallTo(e, dec) })
+			// an intact record is served: once decodeValue accepted the
+			// value nothing else may turn the Load into a failure
+			if id >= 0 {
+				if n, k := nilResult(p, id, last); n && k {
+					if res[0] == pathx.ResultAt(p.Events[id].Result, 0) && retErr(p, last) != triNonNil {
+						intact.pass()
+					} else {
+						intact.fail(p, last, "a record that passed decodeValue (length, checksum) is not returned as it is: Load fails, or yields something else, for an intact record — the stored packet, or the client identifier, becomes unavailable although nothing is damaged")
+					}
+				}
+			}
 			switch {
 			case !pathx.IsNilConst(res[0]):
 				if id >= 0 {
@@ -285,6 +297,7 @@ func (c *Ctx) cod8() {
 			}
 		}
 		a.done(3, "present ⇒ decoded without error; absent ⇒ delegate returned nil; everything else is an error")
+		intact.done(1, "the integrity check is the only condition between the delegate's value and the caller")
 	}
 	if rsv != nil {
 		a := c.acc("COD-8", rsv, "Save=delegate.Save(key,encodeValue(value,seqNo.Add(1)))")
